@@ -81,3 +81,20 @@ def register(claim) -> None:
         "started in a fresh context copy. This covers every interleaving at once. Obligations C03.1-C03.5.",
         "Trusts contextvars / asyncio task-context semantics (API_FACT 11).",
     )
+    claim(
+        "C12",
+        "sibling cross-check of the four cache call forms: key-construction dataflow, scenario-pruned CFG reachability with a concrete clock/size valuation, who-may-touch scan of the entry store",
+        "Decides the LRU/expiry invariants for all four siblings: typed key from all arguments (+receiver), function called with exactly the key's "
+        "arguments, hit path = unexpired test -> move_to_end -> return (never the function), expired = delete + miss path (never the stale value), "
+        "miss path = store then evict oldest exactly when len exceeds limit, expiry stamps monotonic()+expiration. With OrderedDict semantics these "
+        "imply the behaviour over all histories. Obligations C12.1-C12.7; C12.6 (receiver identity) is a recorded known finding.",
+        "Trusts OrderedDict and functools._make_key. Expiry at exact real-time boundaries is not decided.",
+    )
+    claim(
+        "C13",
+        "atomic-section query (no suspension node on any lookup->store path) + value-origin dataflow of the stored task + await-operand discipline",
+        "On a single-threaded loop a task is descheduled only at a suspension point, so 'no await between lookup and store of the Task' proves for "
+        "every schedule that concurrent callers share one invocation; 'every await is shield(task)' and 'nothing in the module cancels' prove that a "
+        "leaving waiter, expiry or eviction never harms the invocation or other waiters. Obligations C13.1-C13.4.",
+        "Trusts asyncio.shield / Task semantics.",
+    )
